@@ -57,7 +57,7 @@ func c09Run(ctx *core.Ctx) {
 				for _, ab := range []bool{false, true} {
 					for nch := 0; nch <= 3; nch++ {
 						for _, res := range []string{"ok", "fail"} {
-							for _, ir := range []string{"none", "eq", "b64", "bad"} {
+							for _, ir := range []string{"none", "eq", "b64", "bad", "badpad"} {
 								// step-kind vectors: all good; one deviation at each position
 								var vectors [][]string
 								good := make([]string, nch)
@@ -66,7 +66,7 @@ func c09Run(ctx *core.Ctx) {
 								}
 								vectors = append(vectors, good)
 								for pos := 0; pos < nch; pos++ {
-									for _, dev := range []string{"empty", "bad", "cancel", "long"} {
+									for _, dev := range []string{"empty", "bad", "badpad", "cancel", "long"} {
 										v := append([]string{}, good...)
 										v[pos] = dev
 										vectors = append(vectors, v)
@@ -144,6 +144,9 @@ func c09Run(ctx *core.Ctx) {
 				for _, ir := range []string{"none", "b64"} {
 					emit(c09Case{Kind: "fake", Fake: fk, At: at, IR: ir, IRBytes: []byte("ir"),
 						Steps: []c09Step{{Kind: "b64", Bytes: []byte("r0")}, {Kind: "b64", Bytes: []byte("r1")}, {Kind: "b64", Bytes: []byte{0, 255}}}})
+					// zero-length responses to challenges (an empty line each, not "=")
+					emit(c09Case{Kind: "fake", Fake: fk, At: at, IR: ir, IRBytes: []byte("ir"),
+						Steps: []c09Step{{Kind: "empty", Bytes: []byte{}}, {Kind: "b64", Bytes: []byte("r1")}, {Kind: "empty", Bytes: []byte{}}}})
 				}
 			}
 		}
@@ -362,6 +365,9 @@ func c09Srv(ctx *core.Ctx, c c09Case) {
 		expCalls = append(expCalls, saslCall{string(c.IRBytes), false})
 	case "bad":
 		line += " !!notbase64!!"
+	case "badpad":
+		// base64 with wrong, missing or excess padding is malformed base64 (RFC 4648 section 4)
+		line += " " + c09BadPad[len(c.Challenges)%len(c09BadPad)]
 	default:
 		expCalls = append(expCalls, saslCall{"", true})
 	}
@@ -379,7 +385,7 @@ func c09Srv(ctx *core.Ctx, c c09Case) {
 	}
 	success := false
 	over := false
-	if c.IR == "bad" {
+	if c.IR == "bad" || c.IR == "badpad" {
 		expCalls = nil
 		over = true
 		if r.Class() == 2 || r.Class() == 3 {
@@ -414,6 +420,9 @@ func c09Srv(ctx *core.Ctx, c c09Case) {
 			case "bad":
 				r = cmd("%%%bad")
 				over = true
+			case "badpad":
+				r = cmd(c09BadPad[(i+len(st.Bytes))%len(c09BadPad)])
+				over = true
 			case "cancel":
 				r = cmd("*")
 				over = true
@@ -445,7 +454,7 @@ func c09Srv(ctx *core.Ctx, c c09Case) {
 	}
 	a, calls := c09MechEvents(rig.Log.Events(), mark)
 	ctx.Add("mechanism_calls_compared", int64(len(calls)))
-	if c.IR != "bad" && a != 1 {
+	if c.IR != "bad" && c.IR != "badpad" && a != 1 {
 		fail("C09:auth-calls", fmt.Sprintf("Auth() was called %d times for one exchange", a))
 		return
 	}
@@ -482,6 +491,9 @@ func c09Srv(ctx *core.Ctx, c c09Case) {
 	}
 	c09Sample(ctx, c, all)
 }
+
+// c09BadPad: "\x00u\x00p" with one pad too few, none, one too many; only padding.
+var c09BadPad = []string{"AHUAcA=", "AHUAcA", "AHUAcA===", "===="}
 
 func c09Sample(ctx *core.Ctx, c c09Case, all []wire.Reply) {
 	cls := fmt.Sprintf("%s/%s/ins=%v/ab=%v", c.Kind, c.TLS, c.Insecure, c.AuthBackend)
@@ -611,7 +623,7 @@ func c09Cli(ctx *core.Ctx, c c09Case) {
 }
 
 func c09Fake(ctx *core.Ctx, c c09Case) {
-	ctx.Eval(fmt.Sprintf("fake|%s|%d|%s", c.Fake, c.At, c.IR), true)
+	ctx.Eval(fmt.Sprintf("fake|%s|%d|%s|%v", c.Fake, c.At, c.IR, c.Steps), true)
 	f := wire.NewFake(func(f *wire.Fake) {
 		f.Write("220 fake ESMTP\r\n")
 		step := 0
@@ -661,6 +673,31 @@ func c09Fake(ctx *core.Ctx, c c09Case) {
 	ctx.Add("wire_lines_checked", int64(len(lines)))
 	fail := func(sig, msg string) {
 		ctx.Violate(sig, msg+fmt.Sprintf(" [fake=%s at=%d ir=%s]", c.Fake, c.At, c.IR), c, append(f.Log.Strings(60), fmt.Sprintf("lines received by the fake server: %q", lines)))
+	}
+	// what the client wrote in answer to the challenges is, line by line, the base64 form of what
+	// its mechanism returned: an empty response is an empty line (only an INITIAL empty response is
+	// spelled "=")
+	var respLines, wantLines []string
+	seenAuth := false
+	for _, l := range lines {
+		switch {
+		case strings.HasPrefix(l, "AUTH "):
+			seenAuth = true
+		case !seenAuth, l == "*", l == "NOOP", l == "QUIT", strings.HasPrefix(l, "EHLO"):
+		default:
+			respLines = append(respLines, l)
+		}
+	}
+	for k := 1; k < len(mech.sent); k++ {
+		w := ""
+		if len(mech.sent[k].resp) > 0 {
+			w = b64([]byte(mech.sent[k].resp))
+		}
+		wantLines = append(wantLines, w)
+	}
+	if fmt.Sprintf("%q", respLines) != fmt.Sprintf("%q", wantLines) {
+		fail("C09:client-octets-altered", fmt.Sprintf("the client answered the challenges with the lines %q; its mechanism's responses in base64 are %q", respLines, wantLines))
+		return
 	}
 	switch c.Fake {
 	case "nonb64":
